@@ -361,3 +361,7 @@ def run(ctx):
             r7.fail(fset_i.qualname, "switch", fset_i.file, fset_i.lineno, "_Simu.Set_Iter", bad)
         else:
             r7.ok("Set_Iter: if recorded != current: current = recorded; __Update_mesh(recorded)")
+    # restoring an iteration replaces both fields of a staggered simulation: the memo flags follow (R14.6)
+    from . import c14
+
+    c14.staggered_flags_rule(ctx, simu)
